@@ -298,20 +298,26 @@ class RequestorModel:
         self.mod = repo.mod("presentation")
         self.fn = repo.func("presentation", "negotiate_as_requestor")
         fn = self.fn
-        a = _assigns(fn, "rq_roles")
-        if len(a) != 1 or norm(a[0].value) != "(rq_context.scu_role, rq_context.scp_role)":
-            raise AnalysisError("negotiate_as_requestor: rq_roles shape")
-        ifs = [i for i in walk_no_nested(fn) if isinstance(i, ast.If) and norm(i.test) == "ac_context.result == 0 and None not in ac_roles"]
-        if len(ifs) != 1:
-            raise AnalysisError("negotiate_as_requestor: role branch guard changed")
-        self.lookup_problem = self._reply_lookup(fn, ifs[0])
-        d = {norm(s.targets[0]): s.value for s in ifs[0].body if isinstance(s, ast.Assign)}
-        if norm(d.get("outcome")) != "SCP_SCU_ROLES[rq_roles][ac_roles]":
-            raise AnalysisError("negotiate_as_requestor: outcome lookup shape")
-        self.idx = (_outcome_index(d["context._as_scu"]), _outcome_index(d["context._as_scp"]))
-        e = {norm(s.targets[0]): s.value for s in ifs[0].orelse if isinstance(s, ast.Assign)}
-        self.default = (_const(e["context._as_scu"]), _const(e["context._as_scp"]))
-        self.node = ifs[0]
+        # the path-sensitive look at the reply lookup applies to the spelling of today's tree; another spelling
+        # (a helper function, a cached outcome) is decided by the evaluation in sa/nego_eval.py alone
+        self.lookup_problem, self.idx, self.default, self.node, self.shape_problem = None, None, None, fn, None
+        try:
+            a = _assigns(fn, "rq_roles")
+            if len(a) != 1 or norm(a[0].value) != "(rq_context.scu_role, rq_context.scp_role)":
+                raise AnalysisError("negotiate_as_requestor: rq_roles shape")
+            ifs = [i for i in walk_no_nested(fn) if isinstance(i, ast.If) and norm(i.test) == "ac_context.result == 0 and None not in ac_roles"]
+            if len(ifs) != 1:
+                raise AnalysisError("negotiate_as_requestor: role branch guard changed")
+            self.lookup_problem = self._reply_lookup(fn, ifs[0])
+            d = {norm(s.targets[0]): s.value for s in ifs[0].body if isinstance(s, ast.Assign)}
+            if norm(d.get("outcome")) != "SCP_SCU_ROLES[rq_roles][ac_roles]":
+                raise AnalysisError("negotiate_as_requestor: outcome lookup shape")
+            self.idx = (_outcome_index(d["context._as_scu"]), _outcome_index(d["context._as_scp"]))
+            e = {norm(s.targets[0]): s.value for s in ifs[0].orelse if isinstance(s, ast.Assign)}
+            self.default = (_const(e["context._as_scu"]), _const(e["context._as_scp"]))
+            self.node = ifs[0]
+        except (AnalysisError, KeyError, TypeError) as exc:
+            self.shape_problem = str(exc)
         # ACSE: proposed roles applied to the requested contexts, None -> False
         acse = repo.func("acse", "ACSE._negotiate_as_requestor")
         src = [norm(s) for s in walk_no_nested(acse) if isinstance(s, ast.stmt)]
